@@ -92,8 +92,9 @@ def run(ctx, rep):
             ok = isinstance(msg, tuple) and msg[0] == "fmt" and ("fmtarg", "display", "d.message") in msg[2] and ("fmtarg", "display", "msg") in msg[2] \
                 and others == ["d.kind", "d.range", "d.context_message", "d.hint", "d.related_infos"]
     paths = Machine(facts, opaque_fns=[FPE], pure_fns=[]).run(FER, [sym_ref("msg"), sym_ref("lookup"), Opaque("error_recovery", "lalrpop_util::ErrorRecovery")])
-    calls = [e for p in paths for e in p.effects if e[0] == "call" and e[1] == FPE]
-    ok2 = len(calls) == 1 and calls[0][2] == ("lookup", "error_recovery.error")
+    percall = [[e for e in p.effects if e[0] == "call" and e[1] == FPE] for p in paths]
+    calls = [c for pc in percall for c in pc]
+    ok2 = bool(paths) and all(len(pc) == 1 and pc[0][2] == ("lookup", "error_recovery.error") for pc in percall)
     rep.check(ok and ok2, "F3", "C20|F3", cfg.where(fe), "from_error_recovery must convert error_recovery.error with from_parse_error and keep kind / range / hints, prefixing the whole message; extracted message %r, conversion call %r" % (
         det, [fmt_label(c[2]) for c in calls]), sample={"message": det})
     # ---- F4 (MIR part): add_content's Err branch converts with from_parse_error; recovery actions are checked in the grammar rules (C03 S1)
